@@ -205,12 +205,10 @@ def _judge(ck, work, sources, label):
     for k, whys in real:
         e = events[k - 1]
         groups.setdefault((e.get("holder", e.get("kind", e["op"])), tuple(whys)), []).append((k, whys))
-    rank = 0
     while any(groups.values()):
         for g in sorted(groups):
             if groups[g]:
                 order.append(groups[g].pop(0))
-        rank += 1
     for k, whys in order:
         e = events[k - 1]
         ck.violation("%s: %s" % ("; ".join(whys), json.dumps(e, separators=(",", ":"))[:900]),
@@ -218,6 +216,22 @@ def _judge(ck, work, sources, label):
     if total > sum(len(w) for _, w in real):
         vlib.log("  (%d failing judgements in all; the trace specification keeps the first %d with their events)" %
                  (total, len(v["fails"])))
+    # the self-test's messages are not findings
+    if isinstance(fk, dict):
+        for i in range(nm):
+            for why in failed[i + 1]:
+                fk[why] = fk.get(why, 0) - 1
+        fk = {m: c for m, c in fk.items() if c > 0}
+    # diagnosis (no verdict): are the violating Add events what the as-found variant of Gene.tla predicts?
+    bad_adds = [lines[k - 1] for k, _ in real if events[k - 1]["op"] == "add"]
+    if bad_adds:
+        p = os.path.join(work, label + "-asfound.ndjson")
+        open(p, "w").writelines(bad_adds)
+        va, r = vlib.validate(SPEC, "GeneTrace", "GeneTrace.cfg", p, consts={"Variant": '"asfound"'}, timeout=3000)
+        explained = len(bad_adds) - len({k for k, _ in va["fails"]})
+        ck.mc("trace:asfound-diagnosis", r, "%d of %d violating Add events are exactly what Variant=asfound predicts" %
+              (explained, len(bad_adds)))
+        ck.extra["violating_adds_explained_by_asfound_variant"] = "%d of %d" % (explained, len(bad_adds))
     if isinstance(fk, dict) and fk:
         ck.extra["fail_messages"] = fk
     dk = v.get("driftkinds") or {}
